@@ -87,6 +87,13 @@ func checkC12(c c12Case, rec *Rec) *Violation {
 			return nil
 		}
 		r, err := rules.NewRule(n, 7)
+		if c12IsCommentText(strings.TrimSpace(n)) {
+			// a comment by the documented syntax, whatever the parser makes of it
+			if r != nil {
+				return viol(id, "C12:comment-yields-rule", "comment line %q yields a %s rule", clipStr(n), ruleKind(r))
+			}
+			continue
+		}
 		if err == nil && r != nil {
 			rec.Label("skipped:noise-line-is-a-rule")
 			return nil
@@ -133,6 +140,23 @@ func checkC12(c c12Case, rec *Rec) *Violation {
 	return nil
 }
 
+// c12IsCommentText is the documented comment syntax: "!" comments, and "#"
+// comments (hosts-file style) unless the line opens with a cosmetic rule marker.
+func c12IsCommentText(trimmed string) bool {
+	if trimmed == "" || (trimmed[0] != '!' && trimmed[0] != '#') {
+		return false
+	}
+	if trimmed[0] == '!' {
+		return true
+	}
+	for _, m := range []string{"##", "#@#", "#?#", "#@?#", "#$#", "#@$#", "#$?#", "#@$?#", "#%#", "#@%#"} {
+		if strings.HasPrefix(trimmed, m) {
+			return false
+		}
+	}
+	return true
+}
+
 func checkC12Line(c c12Case, rec *Rec) *Violation {
 	const id = "C12"
 	line := string(c.Line)
@@ -142,6 +166,12 @@ func checkC12Line(c c12Case, rec *Rec) *Violation {
 	_, _ = rules.NewHostRule(line, 42)
 	_, _ = rules.NewCosmeticRule(line, 42)
 	trimmed := strings.TrimSpace(line)
+	if c12IsCommentText(trimmed) {
+		rec.Label("line:comment")
+		if r != nil {
+			return viol(id, "C12:comment-yields-rule", "comment line %q yields a %s rule", clipStr(line), ruleKind(r))
+		}
+	}
 	switch {
 	case err != nil:
 		rec.Label("line:error")
@@ -253,7 +283,8 @@ func genC12Line(t *rapid.T) c12Case {
 		// short hostile constants
 		line = pick(t, "hostile", []string{"a", "^", "a$domain=x.com", "|$client=1.1.1.1", "ab$ctag=x", "||$denyallow=a.com", "*$dnstype=A", "a|$domain=x.com", "|a$domain=x.com",
 			"/[/", "/(/", "/a{2,1}/", "/\\/", "//", "///", "/a/$domain=x.com", "@@a$domain=x.com", "$domain=x.com", "$$", "#", "##", "#@#", "a##", "##a", "a#@#b",
-			"0.0.0.0", "0.0.0.0 ", "::", ":: a", "1.2.3.4 a#b", "a#", "a #", "a.com#", "@@||a^$dnsrewrite", "||a^$dnsrewrite=;;", "||a^$client=", "||a^$client='", "||a^$ctag=~"})
+			"0.0.0.0", "0.0.0.0 ", "::", ":: a", "1.2.3.4 a#b", "a#", "a #", "a.com#", "@@||a^$dnsrewrite", "||a^$dnsrewrite=;;", "||a^$client=", "||a^$client='", "||a^$ctag=~",
+			"#@ merged from example.org", "#@todo", "#?ref=list", "#%20generated", "#$ price", "#@$", "#@?x", "#@%x", "#$?x", "#@", "#?", "#$", "#%"})
 	case 5:
 		line = string(rapid.SliceOfN(rapid.Byte(), 0, 40).Draw(t, "bytes"))
 	}
@@ -290,7 +321,8 @@ func genC12Line(t *rapid.T) c12Case {
 	return c12Case{Line: b, Reqs: c12Reqs(t)}
 }
 
-var c12NoisePool = []string{"", " ", "\t", "! comment", "!", "# comment", "#", "# ||example.org^", "! ||example.org^$important", "||bad^$unknownmod", "@@", "||x^$domain=",
+var c12NoisePool = []string{"#@ merged from example.org", "#@todo ads", "#?ref=example", "#%20generated banner", "#$ price ads", "#@$x", "#@? google", "#@%", "#$?", "#@",
+	"", " ", "\t", "! comment", "!", "# comment", "#", "# ||example.org^", "! ||example.org^$important", "||bad^$unknownmod", "@@", "||x^$domain=",
 	"|", "*", "||", "example.org#$#body{}", "#@#.nodomain", "||a^$dnsrewrite=;;", "||a^$client=", "$$script", "!##.x", "# 0.0.0.0 example.org", "||example.org^$popup,elemhide",
 	"||example.org^$domain=example.com|~example.net,unknownmodifier=1,third-party,script", "@@||example.org^$elemhide,popup,domain=example.com|example.net|example.org|a.com"}
 
